@@ -228,6 +228,26 @@ theorem recorded_offsets_inside (w : Bytes) (o : ReadOpts) (c : List Nat) (errs 
 example : readMsg [0,1,0,0,0,0,0,0,0,0,0,0] { cont := true, ignoreTrailing := false, questionOnly := false }
     = .message [0,0,0,0] [] := by decide
 
+/-- Whatever a type-specific RDATA parser raises — a library error of another family or any foreign
+exception — what leaves `dns.rdata.from_wire_parser` / `dns.rdata.from_text` is an instance of the wrapper's
+family (FormError for wire, SyntaxError for text), and an exception already in the family passes unchanged. -/
+theorem wrapper_closed (f : Family) (raised : Option ExcKind) (e : ExcKind) (h : wrapExit f raised = some e) :
+    isInstanceOf e f = true ∧ (∀ r, raised = some r → isInstanceOf r f = true → e = r) ∧
+    (raised = none → False) := by
+  cases raised with
+  | none => simp [wrapExit] at h
+  | some r =>
+    simp only [wrapExit] at h
+    by_cases hr : isInstanceOf r f = true
+    · simp [hr] at h; subst h
+      exact ⟨hr, fun r' h1 _ => by injection h1, fun h => by cases h⟩
+    · simp [hr] at h; subst h
+      refine ⟨by cases f <;> rfl, fun r' h1 h2 => ?_, fun h => by cases h⟩
+      injection h1 with h1; subst h1; exact absurd h2 hr
+
+/-- a block that completes is not turned into an error -/
+theorem wrapper_transparent (f : Family) : wrapExit f none = none := rfl
+
 /-! ## `dns.wirebase.Parser`: the bounds discipline under every wire parser -/
 
 open Model.WP in
